@@ -247,8 +247,15 @@ pub fn link_into_prefix_path(model: &Model, tree: &[Node], w: &Walker) -> bool {
         return true;
     };
     let space = Space::of(w, DUMMY_ROOT);
+    // (compared as the directories they denote: the base may itself be a link, and a link's target
+    // is resolved, so texts alone would miss `a -> b` as base with a link to `b` beneath the prefix)
+    let (Ok(start), Ok(from)) = (model.resolve(&start, true), model.resolve(&space.start, true))
+    else {
+        // a walk root that does not exist touches nothing
+        return false;
+    };
     tree.iter().filter(|n| matches!(n.kind, Kind::Link { .. })).any(|n| match model.resolve(&n.path, true) {
-        Ok(t) => t != start && is_under(&start, &t) && is_under(&t, &space.start),
+        Ok(t) => t != start && is_under(&start, &t) && is_under(&t, &from),
         Err(_) => false,
     })
 }
